@@ -201,6 +201,14 @@ func SplitBraces(word *Word) bool {
 			acc.Parts = append(acc.Parts, elem.Parts...)
 		}
 	}
+	if !slices.ContainsFunc(top.Parts, func(part WordPart) bool {
+		_, ok := part.(*BraceExp)
+		return ok
+	}) {
+		// Only malformed braces such as "a{b" or "{x}"; leave the word untouched.
+		// Any brace expression would be in top.Parts, as non-braces get flattened.
+		return false
+	}
 	*word = *top
 	return true
 }
